@@ -429,9 +429,14 @@ func tagRules(x *Ctx) {
 					if c.Op != "const" {
 						c = fc.Atom.Args[0]
 					}
-					if ct != nil && len(ct.Args) == 1 && ct.Args[0].String() == "arg0" {
+					switch {
+					case decodesWith(r, "token/delegation", "FromIPLD", "arg0"):
+						got[c.Name] = "token/delegation.FromIPLD"
+					case decodesWith(r, "token/invocation", "FromIPLD", "arg0"):
+						got[c.Name] = "token/invocation.FromIPLD"
+					case ct != nil && len(ct.Args) == 1 && ct.Args[0].String() == "arg0":
 						got[c.Name] = ct.Name
-					} else {
+					default:
 						got[c.Name] = r.String()
 					}
 				}
